@@ -302,7 +302,10 @@ inductive Op
   | catch_ (body : Prog)
   | sayCatch
   | safeApply (nargs declared : Nat) (body : Prog)
+  | safeFp (owner : Val) (nargs declared : Nat) (body : Prog)   -- safe_call_function_pointer of a (: f :) pointer
   | raise (msg : String)
+  | craise (msg : String)                       -- an error raised by the C code of an efun that has already called back
+                                                -- into LPC (e.g. load_object after the compiler's log_error apply): no tick
   | throw_ (v : String)
   | raiseLimit                                  -- eval cost exhausted: sets ES_MAX_EVAL_COST, raises
   | load (body : Prog)                          -- load_object: ++num_objects_this_thread ... --
@@ -439,6 +442,21 @@ def safeFinish (econ : Ctx) (link : List Ctx) (declared : Nat) (r : Res) : Res :
     | r => r
   | r => r
 
+/-- safe_call_function_pointer after the called function (fake frame + function frame): normal return or longjmp; pop_context -/
+def safeFpFinish (owner : Val) (econ : Ctx) (link : List Ctx) (declared : Nat) (r : Res) : Res :=
+  match r with
+  | .ok m5 =>
+    match leaveCall (.fpLocal owner) declared m5 with
+    | .ok m6 => match popN 1 m6 with
+      | some m7 => .ok (popContext link m7)
+      | none => .crash "value stack underflow" m6
+    | r => r
+  | .err m6 =>
+    match restoreContext econ m6 with
+    | .ok m7 => .ok (popContext link m7)
+    | r => r
+  | r => r
+
 /-- the depth tests of push_control_stack / setup_fake_frame for a call that pushes `framesOf k` frames: the
     fake frame of a function pointer is already pushed when the second test fails -/
 def depthCheck (k : CallKind) (m : M) : Option M :=
@@ -499,6 +517,7 @@ def exec : Prog → M → Res
 /-- every op begins with one dispatched instruction (`tick`), which can be the injected fault -/
 def execOp : Op → M → Res
   | .cb k a d body, m0 => execCore (.cb k a d body) m0
+  | .craise msg, m0 => execCore (.craise msg) m0
   | o, m0 => if (tick m0).1 then raise injectedMsg (tick m0).2 else execCore o (tick m0).2
 
 def execCore : Op → M → Res
@@ -548,7 +567,24 @@ def execCore : Op → M → Res
       match adjustArgs nargs declared (enterCall (.other masterVal) declared m2) with
       | none => .crash "value stack underflow" m2
       | some m3 => safeFinish (safeCtx nargs econ0) m.ctxs declared (thenTick (exec body m3))
+  | .safeFp owner nargs declared body, m =>
+    -- safe_call_function_pointer (lib/lpc/functional.c), repaired: save_sp = sp - num_arg
+    match saveContext (pushVals nargs m) with
+    | none => match popN nargs (pushVals nargs m) with
+      | some m2 => .ok m2
+      | none => .crash "value stack underflow" (pushVals nargs m)
+    | some (econ0, m2) =>
+      -- setup_fake_frame passes its depth test (the context was saved just above); the push of the function frame may not
+      match depthCheck (.fpLocal owner) m2 with
+      | some mFull =>
+        safeFpFinish owner (safeCtx nargs econ0) m.ctxs declared
+          (raise "***Too deep recursion." { mFull with errState := mFull.errState ||| Gen.C05.esStackFull })
+      | none =>
+      match adjustArgs nargs declared (enterCall (.fpLocal owner) declared m2) with
+      | none => .crash "value stack underflow" m2
+      | some m3 => safeFpFinish owner (safeCtx nargs econ0) m.ctxs declared (thenTick (exec body m3))
   | .raise msg, m => raise msg m
+  | .craise msg, m => raise msg m
   | .throw_ v, m => throwVal v m
   | .raiseLimit, m =>
     raise "*Too long evaluation. Execution aborted." { m with errState := m.errState ||| Gen.C05.esMaxEvalCost }
